@@ -14,7 +14,7 @@ from coco.b09 import elements as E
 from tx.opaque import OpqExp, OpqStmt, OpqAny, mark
 
 PROPS_EXPR = ("C01", "C05", "C07")
-PROPS_STMT = ("C02", "C05", "C07")
+PROPS_STMT = ("C01", "C02", "C05", "C07")
 
 
 class Case:
@@ -265,7 +265,7 @@ for npre in (0, 2):
                 return o, lab(o)
             case("BasicOnGoStatement", "pre=%d,gosub=%d,n=%d" % (npre, gosub, n), b,
                  text=lambda i, npre=npre, gosub=gosub, n=n: PRE(npre, i) + "ON " + m("e", i) + (" GOSUB " if gosub else " GOTO ") + ", ".join(str(x) for x in [100, 20, 3000][:n]),
-                 trace=[("hook", "statement", "self"), ("hook", "go_statement", "self"), ("child", "e")], props=("C02", "C05", "C06", "C07"))
+                 trace=[("hook", "statement", "self"), ("hook", "go_statement", "self"), ("child", "e")], props=("C01", "C02", "C05", "C06", "C07"))
 
     def b(npre=npre):
         o = with_pre(E.BasicIf(OpqExp("c"), OpqStmt("s")), npre)
@@ -348,7 +348,7 @@ for npre in (0, 2):
         o = with_pre(E.BasicPrintStatement(OpqAny("args")), npre)
         return o, lab(o)
     case("BasicPrintStatement", "pre=%d" % npre, b, text=lambda i, npre=npre: PRE(npre, i) + "PRINT " + m("args", i),
-         trace=[("hook", "statement", "self"), ("child", "args")], props=("C03", "C05", "C07"))
+         trace=[("hook", "statement", "self"), ("child", "args")], props=("C01", "C03", "C05", "C07"))
 
     def b(npre=npre):
         o = with_pre(E.BasicSound(OpqExp("e1"), OpqExp("e2")), npre)
@@ -457,14 +457,17 @@ case("BasicStatements", "empty", _empty_stmts, text=lambda i: "", trace=[], prop
 
 # print list reconstruction (C03): juxtaposition reads as `;`, an absent item as ""
 PCTL = {";": ";", ",": ","}
-for shape in ["e", "e;", "e,e", "ee", ";e", ",,e", "e;e,e", ";", "", "e;;e", "ee;"]:
+for shape in ["e", "e;", "e,e", "ee", ";e", ",,e", "e;e,e", ";", "", "e;;e", "ee;", "ue", "eu", "uu;", "le", "ve", "fe", "eue"]:
     def b(shape=shape):
         k = 0
         args = []
         for ch in shape:
-            if ch == "e":
+            if ch in "eulvf":
                 k += 1
-                args.append(OpqExp("e%d" % k, True))
+                o = OpqExp("e%d" % k, True)
+                # an item is an item whatever class it has: unary-operator expression, literal, variable, function call
+                args.append({"e": o, "u": E.BasicOpExp("-", o), "l": E.BasicParenExp(o), "v": E.BasicBinaryExp(o, "+", OpqExp("x%d" % k, True), is_str_expr=True),
+                             "f": E.BasicFunctionCall("CHR$", E.BasicExpressionList([o]), is_str_expr=True)}[ch])
             else:
                 args.append(E.BasicPrintControl(ch))
         o = E.BasicPrintArgs(args)
@@ -477,11 +480,12 @@ for shape in ["e", "e;", "e,e", "ee", ";e", ",,e", "e;e,e", ";", "", "e;;e", "ee
         k = 0
         prev = None   # 'e' | 'c' | None
         for idx, ch in enumerate(shape):
-            if ch == "e":
+            if ch in "eulvf":
                 k += 1
                 if prev == "e":
                     out.append("; ")
-                out.append(m("e%d" % k, i))
+                t = m("e%d" % k, i)
+                out.append({"e": t, "u": "- " + t, "l": "(" + t + ")", "v": t + " + " + m("x%d" % k, i), "f": "CHR$(" + t + ")"}[ch])
                 prev = "e"
             else:
                 if prev in (None, "c"):
@@ -491,4 +495,4 @@ for shape in ["e", "e;", "e,e", "ee", ";e", ",,e", "e;e,e", ";", "", "e;;e", "ee
                     out.append(" ")
                 prev = "c"
         return "".join(out)
-    case("BasicPrintArgs", "shape=%r" % shape, b, text=t, trace=[("child", "e%d" % k) for k in range(1, shape.count("e") + 1)], props=("C03", "C05", "C07"))
+    case("BasicPrintArgs", "shape=%r" % shape, b, text=t, trace=None if set(shape) & set("ulvf") else [("child", "e%d" % k) for k in range(1, shape.count("e") + 1)], props=("C03", "C05", "C07"))
